@@ -14,3 +14,4 @@ import MimicProps.C03
 #print axioms MimicProps.C03.reply_builders_are_code
 #print axioms MimicProps.C03.code_ok_err_roundtrip
 #print axioms MimicProps.C03.handler_skeletons
+#print axioms MimicProps.C03.protocol_constants
